@@ -32,3 +32,29 @@ Check (C07_audio_specific_config_fields : (forall rate ch fi, freq_index rate = 
 Check (C07_dOps_stereo : (forall a, 1 <= at_channels a <= 2 ->
   strict_dops (payload_of (build_dops_box a)) = Some (at_channels a, 48000, 0))%type).
 Check (C07_fragmented_av1C_refuted : (forall c, strict_av1c (payload_of (build_av1c_fmp4 c)) = None)%type).
+Check (C07_av1_parser_accepts_conformant_headers : (forall (s : seq_hdr) (ext : option N),
+  valid_seq s = true -> cc_mono_chrome (sh_color s) = false ->
+  (match ext with Some e => e < 256 | None => True end) ->
+  exists c, extract_av1_config (seq_obu ext s) = Some c /\
+    av1_sequence_header c = seq_obu ext s /\
+    av1_seq_profile c = sh_seq_profile s /\
+    av1_seq_level_idx c = seq_level0 s /\
+    av1_seq_tier c = seq_tier0 s /\
+    av1_high_bitdepth c = cc_high_bitdepth (sh_color s) /\
+    av1_twelve_bit c = cc_twelve_bit (sh_color s) /\
+    av1_monochrome c = false /\
+    av1_subsampling_x c = cc_subsampling_x (sh_color s) /\
+    av1_subsampling_y c = cc_subsampling_y (sh_color s) /\
+    av1_chroma_sample_position c = cc_chroma_sample_position (sh_color s))%type).
+Check (C07_av1_parser_skips_other_obus : (forall (s : seq_hdr) (pre : list (N * bytes)) (post : bytes),
+  valid_seq s = true -> cc_mono_chrome (sh_color s) = false ->
+  Forall (fun tp => fst tp < 16 /\ fst tp <> 1 /\ len (snd tp) < 72057594037927936) pre ->
+  extract_av1_config (concat (map (fun tp => plain_obu (fst tp) (snd tp)) pre) ++ seq_obu None s ++ post) =
+  extract_av1_config (seq_obu None s ++ post)
+  /\ (forall c, extract_av1_config (seq_obu None s) = Some c -> exists c',
+        extract_av1_config (seq_obu None s ++ post) = Some c' /\
+        av1_seq_profile c' = av1_seq_profile c /\ av1_seq_level_idx c' = av1_seq_level_idx c /\
+        av1_sequence_header c' = av1_sequence_header c))%type).
+Check (C07_av1_monochrome_chroma_position_refuted : (exists s, valid_seq s = true /\ cc_mono_chrome (sh_color s) = true /\
+            exists c, extract_av1_config (seq_obu None s) = Some c /\ av1_chroma_sample_position c <> 0)%type).
+Check (C07_av1_monochrome_header_rejected_refuted : (exists s, valid_seq s = true /\ cc_mono_chrome (sh_color s) = true /\ extract_av1_config (seq_obu None s) = None)%type).
